@@ -276,6 +276,8 @@ def rloop_event_loops_keep_polling(ctx):
     """the loops that admit connections and release slots suspend only at vetted points"""
     from .common import event_loops_suspend_only_where_vetted
     event_loops_suspend_only_where_vetted(ctx, "C11.LOOP")
+    from .common import teardown_waits_only_for_vetted_things
+    teardown_waits_only_for_vetted_things(ctx, "C11.TEARDOWN")
 
 
 def rspawn_vetted_spawn_sites(ctx):
